@@ -2,12 +2,18 @@ module verif/harness
 
 go 1.23
 
-require github.com/ctessum/geom v0.0.0
+require (
+	github.com/ctessum/geom v0.0.0
+	github.com/paulmach/osm v0.1.1
+)
 
 require (
 	github.com/ctessum/polyclip-go v1.1.0 // indirect
+	github.com/gogo/protobuf v1.3.1 // indirect
 	github.com/gonum/floats v0.0.0-20181209220543-c233463c7e82 // indirect
 	github.com/gonum/internal v0.0.0-20181124074243-f884aa714029 // indirect
+	github.com/paulmach/orb v0.1.6 // indirect
+	golang.org/x/sync v0.0.0-20200625203802-6e8e738ad208 // indirect
 	gonum.org/v1/gonum v0.9.3 // indirect
 )
 
